@@ -690,7 +690,7 @@ def call_rounds(out):
 
 # --------------------------------------------------------------------------------------
 def run_verus(path, extra_args, tag, multiple_errors=40):
-    cmd = [VERUS, path, '--output-json', '--time-expanded', '--error-format=json', '--multiple-errors', str(multiple_errors),
+    cmd = [VERUS, path, '--output-json', '--time-expanded', '--error-format=json', '--multiple-errors', str(multiple_errors), '--triggers-mode', 'silent',
            '--edition=2018'] + extra_args
     t0 = time.time()
     try:
@@ -776,6 +776,37 @@ def analyse(out, res, unit):
         undecided.append('verus rejected the assembled file (unsupported construct / type error): ' + ' | '.join(msgs[:4] or res['raw_err'][:4]))
         return fails, undecided
     for d in res['diags']:
+        if d.get('level') == 'note' and d.get('message', '').startswith('diagnostics via expansion') and fails:
+            # --expand-errors: spans of the failing conjuncts inside the clause reported by the preceding error: refine the label
+            labs = []
+            for sp in d.get('spans', []):
+                ln = sp.get('line_end', sp['line_start'])
+                if ln - 1 >= len(out.origin) or out.origin[ln - 1].get('kind') != 'contract':
+                    continue
+                fnid = out.origin[ln - 1].get('fn')
+                k = ln - 1
+                while k < len(out.lines) and out.origin[k].get('kind') == 'contract' and out.origin[k].get('fn') == fnid:
+                    m = LABEL_RE.search(out.lines[k])
+                    if m:
+                        if m.group(1).strip() not in labs:
+                            labs.append(m.group(1).strip())
+                        break
+                    k += 1
+            last = fails[-1]
+            if labs and last.get('label') and not last.get('refined'):
+                first = True
+                base = dict(last)
+                for lb in labs:
+                    tgt = last if first else dict(base)
+                    ids = re.findall(r'C\d{2,3}', lb)
+                    tgt['label'] = lb
+                    tgt['props'] = ids or base['props']
+                    tgt['key'] = '[%s]' % lb + (base['key'][base['key'].index(']') + 1:] if ']' in base['key'] else '')
+                    tgt['refined'] = True
+                    if not first:
+                        fails.append(tgt)
+                    first = False
+            continue
         if d.get('level') != 'error':
             continue
         msg = d.get('message', '')
@@ -952,6 +983,12 @@ def run_unit(name, canary=True, keep=False):
             resc = [(rnd, uc, outc, f.result()) for rnd, uc, outc, f in futc]
         r['cmd'] = res['cmd']
         fails, und = analyse(out, res, u)
+        if fails and not und and os.environ.get('VERIF_NO_EXPAND') != '1':
+            # second pass only when something failed: --expand-errors names the failing conjunct inside a multi-part clause
+            res2 = run_verus(path, u.verus_args + ['--expand-errors'], name + '-expand', 12)
+            f2, u2 = analyse(out, res2, u)
+            if f2 and not u2:
+                fails = f2
         r['fails'] = fails
         r['undecided'] += und
         r['obligations'] = count_obligations(out)
